@@ -43,7 +43,9 @@ class Chunks(Harness):
         D = {"bed3": [[[1, 1, 1]], [[2, 1, 1], [1, 1, 2]], [[1, 1, 1], [1, 2, 3], [2, 1, 1]]],
              "bed6": [[[1, 1, 1, 1, 1, 1], [1, 2, 2, 1, 1, 1]]],
              "gtf": [[[1, 1, 1, 1, 1, 1, 1, 1, 2], [1, 1, 1, 1, 1, 1, 1, 1, 1]]],
-             "sam": [[[1, 1, 1, 1, 1, 1, 1, 1, 1, 1, 1], [1, 1, 1, 1, 1, 1, 1, 1, 1, 2, 2, 2]]]}
+             "sam": [[[1, 1, 1, 1, 1, 1, 1, 1, 1, 1, 1], [1, 1, 1, 1, 1, 1, 1, 1, 1, 2, 2, 2]],
+                     # records with and without optional tags in both orders (the tags column is compared as well)
+                     [[1, 1, 1, 1, 1, 1, 1, 1, 1, 1, 1, 2, 1], [1, 1, 1, 1, 1, 1, 1, 1, 1, 1, 2], [1, 1, 1, 1, 1, 1, 1, 1, 1, 1, 1, 1]]]}
         S = {"fasta2": [[[1, 1]], [[1, 2], [2, 1]], [[1, 1], [1, 3], [1, 1]]],
              "fastq": [[[1, 1]], [[1, 2], [2, 1]]],
              "mfasta": [[[1, 3]], [[1, 3], [1, 2]], [[1, 4], [1, 1], [1, 2]],
@@ -60,6 +62,10 @@ class Chunks(Harness):
                         out.append(dict(fmt=fmt, rows=rows, mode=mode, no_final_newline=nofinal, crlf=False, header=hdr))
                     if fmt in ("bed3", "sam") or tier == "thorough":
                         out.append(dict(fmt=fmt, rows=rows, mode=mode, no_final_newline=False, crlf=True, header=[]))
+                    if fmt == "sam":
+                        # CRLF without a final newline, the unterminated last record with and without tags
+                        out.append(dict(fmt=fmt, rows=rows, mode=mode, no_final_newline=True, crlf=True, header=[]))
+                        out.append(dict(fmt=fmt, rows=rows[::-1], mode=mode, no_final_newline=True, crlf=True, header=[]))
         out.append(dict(fmt="bed3", rows=[[1, 1, 1], [1, 2, 3], [2, 1, 1]], mode="seek", no_final_newline=False, crlf=False, header=[], join_lazy=True))
         out.append(dict(fmt="bed3", rows=[[1, 1, 1], [3, 1, 1], [1, 1, 1], [1, 2, 2]], mode="prepend", no_final_newline=True, crlf=False, header=[], join_lazy=True))
         for fmt, recsets in S.items():
@@ -105,6 +111,9 @@ class Chunks(Harness):
             cols = F.FORMATS[skel["fmt"]]["cols"]
             res["cols"] = {nm: [r for d in parsed for r in (ctx.lst(getattr(d, nm).raw()) if kind == "id" else ctx.lst(getattr(d, nm)))]
                            for nm, kind in cols if kind in ("id", "int", "str")}
+            rest = F.FORMATS[skel["fmt"]].get("rest")
+            if rest:
+                res["cols"]["__rest__"] = [r for d in parsed for r in ctx.lst(getattr(d, rest))]
             if skel.get("join_lazy"):
                 # the lazily read chunks of the same file, joined with np.concatenate without being parsed first
                 from bionumpy.io.npdataclassreader import NpDataclassReader
@@ -166,6 +175,11 @@ class Chunks(Harness):
             elif kind == "int":
                 exp[nm] = [(digits_value([g(f"c{r}_{c}_{j}") for j in range(w[c])], signed=False) if z3 else
                             int(bytes(g(f"c{r}_{c}_{j}") for j in range(w[c])))) for r, w in enumerate(skel["rows"])]
+        if F.FORMATS[skel["fmt"]].get("rest"):
+            # the rest of the line (SAM optional tags): the remaining cells joined by TAB, empty when there are none
+            nc = len(F.FORMATS[skel["fmt"]]["cols"])
+            exp["__rest__"] = [[t for k, c in enumerate(range(nc, len(w))) for t in (([9] if k else []) + [g(f"c{r}_{c}_{j}") for j in range(w[c])])]
+                               for r, w in enumerate(skel["rows"])]
         return exp
 
     def oracle(self, skel, cx, cout):
